@@ -114,7 +114,8 @@ ObsOutReply(o, ev, seq) ==
   IF cands = {}
   THEN [o EXCEPT !.bad = @ \cup {Tag({"C08"} \cup (IF o.cfg.passive THEN {"C19"} ELSE {}),
                                    "reply or error that no pending query from that address with that transaction ID explains", seq)}]
-  ELSE LET pick == IF good # {} THEN CHOOSE b \in good : \A c \in good : b.seq <= c.seq
+  ELSE LET good1 == IF \E b \in good : b.must THEN {b \in good : b.must} ELSE good   \* owed before merely allowed
+           pick == IF good # {} THEN CHOOSE b \in good1 : \A c \in good1 : b.seq <= c.seq
                    ELSE CHOOSE b \in cands : \A c \in cands : b.seq <= c.seq
            o1 == [o EXCEPT !.oblig = @ \ {pick}]
            tags == (IF good = {} THEN {Tag(IF pick.q \in {"announce_peer", "put"} /\ pick.allow = {} THEN {"C10"} ELSE {"C08"},
@@ -171,7 +172,9 @@ ObsCb(o, ev, seq) ==
   THEN [o EXCEPT !.bad = @ \cup {Tag(IF Blocked(o, ev.ipn) THEN {"C19", "C10"} ELSE {"C10"},
                                    "store or announce callback fired without an honoured token", seq)}]
   ELSE LET exact == {e \in c : e.port = ev.port /\ (ev.kind # "OnAnnounce" \/ e.portOk = ev.portOk)}
-           from == IF exact # {} THEN exact ELSE c       \* callbacks of concurrent announces fire in any order
+           from0 == IF exact # {} THEN exact ELSE c      \* callbacks of concurrent announces fire in any order
+           \* an effect that is owed is discharged before one that is merely allowed (token between 10 and 15 minutes)
+           from == IF \E e \in from0 : e.must THEN {e \in from0 : e.must} ELSE from0
            pick == CHOOSE e \in from : \A d \in from : e.seq <= d.seq
            o1 == [o EXCEPT !.expect = @ \ {pick}]
            o2 == IF ev.kind = "AddPeer"
